@@ -13,6 +13,27 @@ if os.path.exists(arg):
     if fi and fi.get("history"):
         hist, flavour = fi["history"], fi.get("flavour", "local")
     else:
+        # a threaded run that was not linearizable: recorded stamps + a fresh attempt
+        th = [x["detail"]["detail"] for x in d["violations"] if x.get("kind") == "threads"
+              and isinstance(x.get("detail"), dict) and isinstance(x["detail"].get("detail"), dict) and x["detail"]["detail"].get("history")]
+        if th and not any(isinstance(x.get("detail"), dict) and x["detail"].get("history") for x in d["violations"]):
+            t = th[0]
+            import tempfile
+            wd = tempfile.mkdtemp(prefix="replay-")
+            hf, of = os.path.join(wd, "h"), os.path.join(wd, "o")
+            open(hf, "w").write(t["history"] + "\n"); open(of, "w").write(t.get("observed_stamps_and_results", "") + "\n")
+            r = subprocess.run([MODELRUN, "linearize", hf, of], capture_output=True, text=True)
+            print("recorded threaded run:", t["history"]); print("  linearizability of the RECORDED stamps/results:", r.stderr.strip())
+            fl = "sync"
+            for f in ("shared", "growing", "sync"):
+                if "-%s-" % f in t.get("run", ""):
+                    fl = f
+            open(hf, "w").write((t["history"] + "\n") * 300)
+            with open(hf) as i, open(of, "w") as o:
+                subprocess.run([HARNESS, fl], stdin=i, stdout=o)
+            r = subprocess.run([MODELRUN, "linearize", hf, of], capture_output=True, text=True)
+            print("  300 fresh executions on the current tree (flavour %s):" % fl, r.stderr.strip())
+            sys.exit(0)
         v = [x for x in d["violations"] if isinstance(x.get("detail"), dict) and x["detail"].get("history")]
         if not v:
             print("no executable failing input in this replay file; it names the broken obligation:")
